@@ -78,7 +78,8 @@ class Bounds:
         self.sym_names = False       # parameter / fn names as solver strings
         self.vis_alts = ('inherited', 'pub', 'pub_crate', 'pub_in')
         self.qualifiers = False      # const / unsafe / extern on the fn
-        self.deps_kinds = None       # restrict deps alternatives
+        self.deps_kinds = None       # restrict the top-level alternatives of the dependency type
+        self.deps_inner_kinds = None # ... and those below a `&` / parenthesis
         self.fixed = {}
         for k, v in kw.items():
             assert hasattr(self, k), k
@@ -188,20 +189,23 @@ class Gen:
         return choice(key, alts, labels)
 
     # ---- dependency type -------------------------------------------------------------------
-    def deps_type(self, key, depth=0):
+    def deps_type(self, key, depth=0, under_ref=False):
         A = self.A
         B = self.B
         alts, labels = [], []
 
         def add(label, fn):
-            if B.deps_kinds is None or label in B.deps_kinds:
+            allowed = B.deps_kinds if depth == 0 else B.deps_inner_kinds
+            if allowed is None or label in allowed:
                 alts.append(fn)
                 labels.append(label)
 
         for nm in ('D', 'E', 'C'):
             add(f'path:{nm}', lambda ex, nm=nm: A.type_path_ident(A.ident(nm)))
+        # `&impl A + B` is not writable in source (ambiguous `+`): several bounds directly under `&` need parentheses
+        nb = 1 if under_ref else B.max_deps_bounds
         add('impl', lambda ex: A.enum('Type', 'ImplTrait', A.node('TypeImplTrait', bounds=sym_punct(
-            key + '.impl', B.max_deps_bounds, lambda ex2, k, j: self.bound(f'B{j}'), 'Plus', minlen=1))))
+            key + '.impl', nb, lambda ex2, k, j: self.bound(f'B{j}'), 'Plus', minlen=1))))
         add('path2', lambda ex: A.type_path(A.path([A.ident('m'), A.ident('C')])))
         add('path::', lambda ex: A.type_path(A.path([A.ident('C')], leading=True)))
         add('generic-inst', lambda ex: A.type_path(A.path([A.ident('W')], args_last=A.angle_args([self.opaque_type()]))))
@@ -209,7 +213,7 @@ class Gen:
         if depth < B.max_wrappers:
             add('&', lambda ex: A.enum('Type', 'Reference', A.node(
                 'TypeReference', lifetime=sym_opt(key + '.lt', lambda ex2: A.lifetime('a')), mutability=NONE(),
-                elem=Obj('Box', None, [self.deps_type(key + '.&', depth + 1)]))))
+                elem=Obj('Box', None, [self.deps_type(key + '.&', depth + 1, under_ref=True)]))))
             add('paren', lambda ex: A.type_paren(self.deps_type(key + '.()', depth + 1)))
         return choice(key, alts, labels)
 
@@ -392,3 +396,58 @@ def deep_force(ex, v, seen=None):
     elif isinstance(v, TS):
         pass
     return v
+
+
+# ---------------------------------------------------------------------------
+# module / impl-block / trait inputs
+# ---------------------------------------------------------------------------
+
+def _unknown_item(gen, key, j):
+    """an item the macro does not recognise: kept as opaque tokens"""
+    toks = [('I', 'struct', 'input'), ('I', f'Other{j}', 'input'), ('P', ';', 'input')]
+    return ssetup.local_node(gen.prog, 'ItemUnknown', attrs=VecObj([]), vis=gen.A.vis_inherited(), tokens=TS([('RAW', key, toks)]))
+
+
+def mod_item(gen, key, j, vis_alts=('pub', 'pub_crate')):
+    A = gen.A
+
+    def pubfn(ex):
+        f = ssetup.local_node(gen.prog, 'InputFn', fn_attrs=gen.attrs(key + '.attrs', gen.B.max_fn_attrs, nested=True),
+                              fn_vis=gen.visibility(key + '.vis', vis_alts), fn_sig=gen.signature(key + '.sig', f'f{j}'),
+                              fn_body=gen.body(key + '.body'))
+        return Obj('ModItem', 'PubFn', [Obj('Box', None, [f])])
+    return choice(key, [pubfn, lambda ex: Obj('ModItem', 'Unknown', [_unknown_item(gen, key, j)])], ['pub fn', 'other item'])
+
+
+def input_mod(gen, key='mod', max_items=2):
+    A = gen.A
+    return ssetup.local_node(gen.prog, 'InputMod', attrs=gen.attrs(key + '.attrs', gen.B.max_fn_attrs), vis=gen.visibility(key + '.vis'),
+                             mod_token=Tok('Mod'), ident=A.ident('m'), brace_token=Tok('Brace'),
+                             items=sym_vec(key + '.items', max_items, lambda ex, k, j: mod_item(gen, k, j)))
+
+
+def impl_item(gen, key, j):
+    def fn(ex):
+        f = ssetup.local_node(gen.prog, 'InputFn', fn_attrs=gen.attrs(key + '.attrs', gen.B.max_fn_attrs, nested=True),
+                              fn_vis=gen.visibility(key + '.vis', ('inherited', 'pub')), fn_sig=gen.signature(key + '.sig', f'f{j}'),
+                              fn_body=gen.body(key + '.body'))
+        return Obj('ImplItem', 'Fn', [Obj('Box', None, [f])])
+    return choice(key, [fn, lambda ex: Obj('ImplItem', 'Unknown', [_unknown_item(gen, key, j)])], ['fn', 'other item'])
+
+
+def input_impl(gen, key='impl', max_items=2):
+    A = gen.A
+    self_ty = choice(key + '.self_ty', [lambda ex: A.type_path_ident(A.ident('MyImpl')),
+                                        lambda ex: A.type_path(A.path([A.ident('inner'), A.ident('MyImpl')]))], ['MyImpl', 'inner::MyImpl'])
+    return ssetup.local_node(gen.prog, 'InputImpl', attrs=gen.attrs(key + '.attrs', gen.B.max_fn_attrs),
+                             unsafety=sym_flag(key + '.unsafe', 'Unsafe') if gen.B.qualifiers else NONE(),
+                             impl_token=Tok('Impl'), trait_path=A.path([A.ident('FooImpl')]), for_token=Tok('For'),
+                             self_ty=self_ty, brace_token=Tok('Brace'),
+                             items=sym_vec(key + '.items', max_items, lambda ex, k, j: impl_item(gen, k, j)))
+
+
+def impl_attr(gen, key='attr'):
+    kind = choice(key + '.kind', [lambda ex: Obj('ImplKind', 'Static', []), lambda ex: Obj('ImplKind', 'DynRef', [])], ['static', 'ref'])
+    opts = ssetup.local_node(gen.prog, 'Opts', default_span=Span(('input', 'attr')), no_deps=NONE(), debug=NONE(), export=NONE(),
+                             future_send=NONE(), mock_api=NONE(), unimock=NONE(), mockall=NONE())
+    return ssetup.local_node(gen.prog, 'EntraitSimpleImplAttr', impl_kind=kind, opts=opts, crate_idents=gen.crate_idents())
